@@ -69,6 +69,17 @@ theorem c08_chain_mode {σ : Type} [ScopeAlg σ] [LawfulScope σ] (owner lastChi
     lookup (chain owner lastChild) k = lookup lastChild k :=
   ⟨LawfulScope.mode_chain .., LawfulScope.argMode_chain .., LawfulScope.lookup_chain ..⟩
 
+/-- **Lazily evaluated streams.**  `Iter(sub)` built at a scope evaluates `sub` for every item *at
+    that scope* (the frame the generator captured, which keeps the mode copied into it when it was
+    created), whichever later step consumes the stream; together with `c08_mode_lexical` (whose
+    induction covers this construct): every probe inside a stream records the mode of the place
+    where the stream is written, not the mode of the place where it is consumed. -/
+theorem c08_iter_creation_scope {σ : Type} [ScopeAlg σ] (p : Prims) (rec : Rec σ) (s : Spec) (t : V) (sc : σ) :
+    glomit p rec (.iter s false) t sc =
+      (do let items ← M.lift (p.iterate t)
+          let vs ← listLoop rec s sc items []
+          pure (.stream vs, sc)) := rfl
+
 /-! ### Fill mode and argument mode keep shape -/
 
 theorem mapLoop_length {σ : Type} [ScopeAlg σ] (rec : Rec σ) (t : V) (sc : σ) :
@@ -146,5 +157,19 @@ example : annotF 8 .auto (.tuple [.fill (.tuple [.probe 1, .mtch (.probe 3) Opti
     [(1, .fill), (3, .mtch), (2, .auto)] := by decide
 example : annotF 8 .auto (.switch [(.mtch (.ty "int") Option.none, .probe 1), (.fill (.probe 2), .probe 3)]
     Option.none) = [(1, .auto), (2, .fill), (3, .auto)] := by decide
+
+/-- a stream built under Fill as a non-final link and consumed by the next link: its probe is in
+    FILL mode, the probe after the chain link in AUTO mode -/
+example : annotF 8 .auto (.tuple [.fill (.iter (.probe 1) false), .ty "list", .probe 2]) =
+    [(1, .fill), (2, .auto)] := by decide
+
+private def onePrims : Prims := { trivialPrims with iterate := fun _ => .ok [.none] }
+
+/-- … and the interpreter records exactly that (one item; `list` is the consumer) -/
+example :
+    let spec := Spec.tuple [.fill (.iter (.probe 1) false), .ty "list", .probe 2]
+    let root : Frames := [{ mode := some .auto, arg := some false }]
+    probesOf (interp (σ := Frames) onePrims 8 spec .none root {}).1.log = [(1, .fill), (2, .auto)] := by
+  rfl
 
 end Glom.Props.C08
